@@ -679,12 +679,18 @@ class __Class(_pre.Pregex):
 
         :param str classes: One or more string character class patterns.
         '''
-        range_pattern = \
-            r"(?:\\(?:\[|\]|\^|\$|\-|\/|[a-z]|\\)|[^\[\]\^\-\/\\])" + \
-            r"-(?:\\(?:\[|\]|\^|\$|\-|\/|[a-z]|\\)|[^\[\]\^\-\/\\])"
-        ranges = set(_re.findall(range_pattern, classes))
-        classes = _re.sub(pattern=range_pattern, repl="", string=classes)
-        return (ranges, set(_re.findall(r"\\?.", classes, flags=_re.DOTALL)))
+        # Read the pattern one (possibly escaped) character at a time, so that
+        # an escaped backslash is never mistaken for the start of another escape.
+        units = _re.findall(r"\\?.", classes, flags=_re.DOTALL)
+        ranges, chars, i = set(), set(), 0
+        while i < len(units):
+            if i + 2 < len(units) and units[i + 1] == "-":
+                ranges.add(f"{units[i]}-{units[i + 2]}")
+                i += 3
+            else:
+                chars.add(units[i])
+                i += 1
+        return (ranges, chars)
 
     
     @staticmethod
